@@ -135,6 +135,18 @@ def run_config(pa, cfg, executor_factory, record=True):
     dissim = gen.make_dissim(pa, tuple(cfg["dissim"]))
     sampler = pa.StatisticalContinuumSampler() if cfg["sampler"] == "stat" else pa.ShuffleContinuumSampler(pivot_type=cfg["sampler"])
     before = snapshot(cont)
+    # attribute writes to the INPUT continuum from worker threads are recorded: a job that writes shared state another thread reads
+    # (e.g. best_window_size, copied into every sample by copy_flush) makes the result depend on the schedule
+    writes = []
+    base = type(cont)
+
+    class Traced(base):
+        def __setattr__(self, k, v):
+            if threading.current_thread() is not threading.main_thread():
+                writes.append((k, threading.current_thread().name))
+            base.__setattr__(self, k, v)
+    cont.__class__ = Traced
+    run_config.worker_writes = writes
     orig = pa.continuum.ThreadPoolExecutor
     ex = executor_factory()
     pa.continuum.ThreadPoolExecutor = ex
@@ -208,6 +220,13 @@ def run(rep, tier, seed, pa):
                      "mode": rng.choice(["exact", "exact", "fast", "soft"]), "sampler": rng.choice(["stat", "int_pivot", "float_pivot"]),
                      "n_samples": rng.choice([3, 4, 6]), "precision": rng.choice([None, 0.15, 0.15]), "numpy_seed": rng.randrange(2 ** 31),
                      "ground_truth": (sorted(rng.sample(gen.ANNOTATORS[:n], rng.randrange(2, n + 1)), reverse=True) if n >= 3 and rng.random() < 0.6 else None)})
+    # fast mode only windows the continuum when it is large enough (4+ annotators with 10+ units each): smaller inputs take the exact route
+    for bi in range(2 if tier == "quick" else 10):
+        n = rng.choice([4, 4, 5])
+        units = gen.gen_units(rng, n, [rng.randrange(10, 15) for _ in range(n)], rng.choice(["perturbed", "perturbed", "random"]), gen.LABEL_SETS["abc"])
+        cfgs.append({"units": units, "dissim": list(rng.choice([("pos", 1.0), ("comb", 1.0, 1.0, 1.0, "abs", "abc", "asis")])), "mode": "fast",
+                     "sampler": rng.choice(["stat", "int_pivot", "float_pivot"]), "n_samples": rng.choice([3, 4]), "precision": None,
+                     "numpy_seed": rng.randrange(2 ** 31), "ground_truth": None, "windowed": True})
     # the configurations compared across processes come first: one with a ground-truth subset and the shuffle sampler, one plain
     with_gt = [c for c in cfgs if c["ground_truth"] and c["sampler"] != "stat"] or [c for c in cfgs if c["ground_truth"]]
     if with_gt:
@@ -235,6 +254,9 @@ def run(rep, tier, seed, pa):
                 bad.append(("draw-off-main-thread", "a random primitive was drawn on a worker thread"))
             if not unchanged:
                 bad.append(("input-modified", "the input continuum changed during compute_gamma"))
+            if run_config.worker_writes:
+                bad.append(("input-written-by-worker", "a job running on a worker thread assigned attribute(s) %s of the input continuum" %
+                            sorted(set(k for k, _ in run_config.worker_writes))))
             if ref is None:
                 ref = (name, vals)
             elif vals != ref[1]:
@@ -243,7 +265,7 @@ def run(rep, tier, seed, pa):
                     ref[0], name, k, ref[1][k] if k < len(ref[1]) else None, vals[k] if k < len(vals) else None, len(ref[1]), len(vals))))
             g = float.fromhex(vals[1 + nchance]) if vals[1 + nchance] != "nan" else 1.0
             rep.count("schedule=" + name)
-            rep.count("mode=" + cfg["mode"])
+            rep.count("mode=" + cfg["mode"] + ("-windowed" if cfg.get("windowed") else ""))
             rep.case(sample={"mode": cfg["mode"], "sampler": cfg["sampler"], "schedule": name, "values": len(vals), "gamma": g},
                      nontrivial_key=(json.dumps(cfg, sort_keys=True), name) if nchance >= 3 and g < 1 else None)
             for key, what in bad:
